@@ -159,17 +159,8 @@ pub fn mirror_check(s: &str, factor: f64) -> Result<Option<u64>, (String, String
             fail!("section reference lists are not the concatenation of its steps' lists", "section {si}: {:?}/{:?}/{:?} vs {sec_i:?}/{sec_c:?}/{sec_t:?}", fs.ingredient_refs, fs.cookware_refs, fs.timer_refs);
         }
     }
-    // metadata: the string entries
-    let mut want: BTreeMap<String, String> = BTreeMap::new();
-    for (k, v) in core.metadata.map.iter() {
-        if let (Some(k), Some(v)) = (k.as_str(), v.as_str()) {
-            want.insert(k.to_string(), v.to_string());
-        }
-    }
-    let got: BTreeMap<String, String> = ffi.metadata.iter().map(|(k, v)| (k.clone(), v.clone())).collect();
-    if got != want {
-        fail!("metadata differs", "core {want:?} ffi {got:?}");
-    }
+    // (the property says nothing about the metadata map of the FFI view: which entries are exposed and how
+    // non-string values are rendered is not compared)
     let nontrivial = !core.ingredients.is_empty() || !core.cookware.is_empty() || !core.timers.is_empty() || core.sections.len() > 1;
     Ok(nontrivial.then(|| fx_hash_str(&format!("{ffi:?}"))))
 }
